@@ -23,11 +23,13 @@ Sch == [fields |-> <<[name |-> "b1", ty |-> TBool, opt |-> TRUE], [name |-> "e",
                      [name |-> "i", ty |-> TInt, opt |-> TRUE], [name |-> "s", ty |-> TBytes, opt |-> TRUE],
                      [name |-> "vb", ty |-> TArr(TBool), opt |-> TRUE], [name |-> "ai", ty |-> TArr(TInt), opt |-> TRUE],
                      [name |-> "a.b", ty |-> TInt, opt |-> TRUE]>>,
-        funcs |-> <<Fn("bb", TBool, TBool)>>, lists |-> <<TInt>>, listkinds |-> <<"set">>, nne |-> TRUE]
+        funcs |-> <<Fn("bb", TBool, TBool),
+                    [name |-> "pb", sem |-> "idb", params |-> <<[kind |-> "Both", ty |-> TBytes]>>, opts |-> <<>>, ret |-> TBytes],
+                    [name |-> "pip", sem |-> "idip", params |-> <<[kind |-> "Both", ty |-> TIp]>>, opts |-> <<>>, ret |-> TIp]>>, lists |-> <<TInt>>, listkinds |-> <<"set">>, nne |-> TRUE]
 Idents == <<[name |-> "b1", cp |-> <<98, 49>>], [name |-> "e", cp |-> <<101>>], [name |-> "note", cp |-> <<110, 111, 116, 101>>],
             [name |-> "y", cp |-> <<121>>], [name |-> "i", cp |-> <<105>>], [name |-> "s", cp |-> <<115>>],
             [name |-> "vb", cp |-> <<118, 98>>], [name |-> "ai", cp |-> <<97, 105>>], [name |-> "a.b", cp |-> <<97, 46, 98>>],
-            [name |-> "bb", cp |-> <<98, 98>>]>>
+            [name |-> "bb", cp |-> <<98, 98>>], [name |-> "pb", cp |-> <<112, 98>>], [name |-> "pip", cp |-> <<112, 105, 112>>]>>
 I(n) == VInt(IntOfNat(n))
 L1 == <<[kind |-> "set", sets |-> <<[name |-> <<108>>, vals |-> <<I(1)>>]>>]>>
 Ctxs == << [sch |-> 1, vals |-> <<VBool(TRUE), VBool(FALSE), VBool(TRUE), VBool(TRUE), I(1), VBytes(<<97>>),
@@ -48,10 +50,14 @@ Idx == <<<<118, 98>>, <<97, 105>>, <<91>>, <<93>>, <<42>>, <<48>>, <<97, 110, 12
 IntItemChars == <<<<45>>, <<48>>, <<49>>, <<55>>, <<56>>, <<57>>, <<97>>, <<120>>, <<46>>, <<32>>>>
 (* value expressions (parse_value): identifiers, index brackets, keys, calls *)
 ValAtoms == <<<<97, 105>>, <<118, 98>>, <<97, 46, 98>>, <<105>>, <<91>>, <<93>>, <<48>>, <<49>>, <<42>>, <<34, 107, 34>>, SP, <<98, 98>>, LPa, RPa, <<98, 49>>, <<46>>, <<45, 49>>>>
-Atoms == IF Set = "logic" THEN Logic ELSE IF Set = "cmp" THEN Cmp ELSE IF Set = "intitems" THEN IntItemChars
+(* literal arguments of a call,  pb(<body>)  and  pip(<body>)  as value expressions: the classification of an argument by its    *)
+(* first three characters must not take a literal that begins with a hex letter (de:ad, fe80::1, ca:fe) for an identifier *)
+ArgAtoms == <<<<100, 101>>, <<58>>, <<97, 100>>, <<100, 101, 58, 97, 100>>, <<102, 101, 56, 48, 58, 58, 49>>, <<58, 58, 49>>, <<49, 46, 50, 46, 51, 46, 52>>,
+              <<99, 97, 58, 102, 101>>, <<115>>, <<34, 97, 34>>, SP, <<49>>, <<48, 49, 58, 48, 50>>, <<101>>, <<97, 46, 98>>, <<102, 58, 58>>>>
+Atoms == IF Set \in {"argb", "argip"} THEN ArgAtoms ELSE IF Set = "logic" THEN Logic ELSE IF Set = "cmp" THEN Cmp ELSE IF Set = "intitems" THEN IntItemChars
          ELSE IF Set = "value" THEN ValAtoms ELSE Idx
-Prefix == IF Set = "intitems" THEN <<105, 32, 105, 110, 32, 123>> ELSE <<>>
-Suffix == IF Set = "intitems" THEN <<125>> ELSE <<>>
+Prefix == IF Set = "intitems" THEN <<105, 32, 105, 110, 32, 123>> ELSE IF Set = "argb" THEN <<112, 98, 40>> ELSE IF Set = "argip" THEN <<112, 105, 112, 40>> ELSE <<>>
+Suffix == IF Set = "intitems" THEN <<125>> ELSE IF Set \in {"argb", "argip"} THEN <<41>> ELSE <<>>
 Seqs == UNION {[1..n -> 1..Len(Atoms)] : n \in 1..MaxAtoms}
 TextOf(q) == Prefix \o FlatSeq(Strict([i \in 1..Len(q) |-> Atoms[q[i]]])) \o Suffix
 Init == txt \in {TextOf(q) : q \in Seqs}
@@ -65,7 +71,7 @@ EmitValue == RV.v # "unspec" =>
                   runs |-> Strict([n \in 1..Len(Ctxs) |-> [ctx |-> n, out |-> "ok", res |-> EvalValue(RV.node, Ctxs[n], Sch)]]), uses |-> <<>>]
             ELSE [ev |-> "value", sch |-> 1, max |-> 128, chars |-> txt, ok |-> FALSE])>>)
 R == ParseText(txt, Sch, 128, -1, Idents)
-Emit == IF Set = "value" THEN EmitValue ELSE R.v # "unspec" =>
+Emit == IF Set \in {"value", "argb", "argip"} THEN EmitValue ELSE R.v # "unspec" =>
           PrintT(<<"REPLAY", ToJson(
             IF R.v = "yes"
             THEN [ev |-> "filter", sch |-> 1, max |-> 128, chars |-> txt, ok |-> TRUE, ast |-> AstJson(R.node),
